@@ -419,6 +419,11 @@ def run_generated(spec, rec, rng, pint):
                             want, g.units[a]["factor"], g.units[b]["factor"])):
                         rec.count("numeric_range_skipped")   # denormal / overflowing float factors
                         continue
+                    if nit is float and max(g.units[a].get("stress", 0.0), g.units[b].get("stress", 0.0)) > 290:
+                        # partial products of the definition chain leave the float range although the
+                        # final factor is moderate (same bound as C09 / C10 / C14 / C15)
+                        rec.count("numeric_range_skipped")
+                        continue
                     rec.case(("gen", spec["seed"], i, sa, sb), nontrivial=want != 1)
                     try:
                         got = ureg.convert(nit(1), sa, sb)
